@@ -41,11 +41,17 @@ let rec c11_inst = function
    is repeated): by C07_cache_transparent / C11_lookup_by_normal_form the cache changes no answer, so model and spec ignore it *)
 let c11_case = function
   | L (A "c11" :: st :: enc :: L gs :: reg :: dec :: esc :: fl) ->
-    List.iter (function A "dyn" | A "cache" | A "tail" -> () | x -> failwith ("c11: bad flavour " ^ to_string x)) fl;
-    if List.mem (A "dyn") fl then begin
-      let sfx = if List.mem (A "tail") fl then c11_sfx_req @ str_of_ascii "/" else c11_sfx_req in
-      c11_dyn := true; (bool st, bool enc, List.map str gs, str reg @ c11_sfx_reg, str dec @ sfx, str esc @ sfx) end
-    else begin c11_dyn := false; (bool st, bool enc, List.map str gs, str reg, str dec, str esc) end
+    List.iter (function A "dyn" | A "cache" | A "tail" | A "icpt" -> () | x -> failwith ("c11: bad flavour " ^ to_string x)) fl;
+    let (st, enc, gs, reg, dec, esc) =
+      if List.mem (A "dyn") fl then begin
+        let sfx = if List.mem (A "tail") fl then c11_sfx_req @ str_of_ascii "/" else c11_sfx_req in
+        c11_dyn := true; (bool st, bool enc, List.map str gs, str reg @ c11_sfx_reg, str dec @ sfx, str esc @ sfx) end
+      else begin c11_dyn := false; (bool st, bool enc, List.map str gs, str reg, str dec, str esc) end in
+    (* InterceptAll(dec) and the request "/zz": a non-blank intercept path stands for every request path (decoded or escaped) *)
+    if List.mem (A "icpt") fl then begin
+      let blank = (trim_space dec = []) in
+      let q = if blank then str_of_ascii "/zz" else dec in (st, enc, gs, reg, q, q) end
+    else (st, enc, gs, reg, dec, esc)
   | x -> failwith ("c11: bad case " ^ to_string x)
 let c11_model c =
   let (st, enc, gs, reg, dec, esc) = c11_case c in
